@@ -171,6 +171,15 @@ func (rmv *rawMomentumVerifier) content() error {
 		return errors.Errorf("momentum content size is different than the size of the prefetched account-blocks")
 	}
 
+	// every header is listed once; a header listed twice would be applied twice
+	listed := make(map[types.AccountHeader]struct{}, len(rmv.momentum.Content))
+	for _, header := range rmv.momentum.Content {
+		if _, ok := listed[*header]; ok {
+			return errors.Errorf("momentum content lists header %v more than once", header)
+		}
+		listed[*header] = struct{}{}
+	}
+
 	// account identifiers make sense when 'applying' blocks; i.e: all pairs of (previous, identifier) match
 	// Note: use prefetched blocks to get block.previous
 	// Note: at this point, we don't care if account-blocks are valid or not, just that the momentum contains all the
